@@ -242,11 +242,16 @@ func (c *Collection) Update(query, update, sort bsonkit.Doc, skip, limit int, ar
 		return nil, fmt.Errorf("skip must not be negative")
 	}
 
+	// check update up front as it is not applied if no document matches
+	err := CheckUpdate(*update)
+	if err != nil {
+		return nil, err
+	}
+
 	// get documents
 	list := c.Documents.List
 
 	// sort documents
-	var err error
 	if sort != nil && len(*sort) > 0 {
 		list, err = Sort(list, sort)
 		if err != nil {
